@@ -53,6 +53,11 @@ enum RegexInternal {
     // Complement of a language. The code enforces that its argument does not contain markers
     // (panics if attempted to put any).
     Complement(Box<Regex>),
+    // A language without markers (a complement, or the universal language `Inter([])`) whose
+    // bytes have been marked afterwards: in all its words, any byte `b` carries the marker
+    // `table[b]`. The letters of such languages do not appear in the expression, so they cannot
+    // be marked directly by `Regex::map`.
+    Marked(Box<Regex>, Box<[usize; ALPHABET_MAX_SIZE]>),
 }
 
 // Conversion from the internal representation of a regex to an actual one,
@@ -472,6 +477,7 @@ impl Regex {
                 v.iter().any(|r| r.contains_markers())
             }
             RegexInternal::Star(_, r) | RegexInternal::Complement(r) => r.contains_markers(),
+            RegexInternal::Marked(_, table) => table.iter().any(|&marker| marker != 0),
         }
     }
 }
@@ -497,14 +503,39 @@ impl Regex {
             RegexInternal::Union(v) => {
                 RegexInternal::Union(v.iter().map(|r| r.map(f)).collect()).into()
             }
+            // The letters of the universal language and of a complement do not appear in the
+            // expression (and no marker is allowed under a complement): the operation is
+            // recorded, and applied once the automaton is computed.
+            RegexInternal::Inter(v) if v.is_empty() => {
+                self.map_unmarked(&[0; ALPHABET_MAX_SIZE], f)
+            }
+            RegexInternal::Complement(_) => self.map_unmarked(&[0; ALPHABET_MAX_SIZE], f),
+            RegexInternal::Marked(r, table) => r.map_unmarked(table, f),
             RegexInternal::Inter(v) => {
                 RegexInternal::Inter(v.iter().map(|r| r.map(f)).collect()).into()
             }
             RegexInternal::Star(strict, r) => {
                 RegexInternal::Star(*strict, Box::new(r.map(f))).into()
             }
-            RegexInternal::Complement(r) => RegexInternal::Complement(Box::new(r.map(f))).into(),
         }
+    }
+
+    /// Same as `Regex::map` for the language obtained by giving the marker
+    /// `table[b]` to any byte `b` of the words of `self`, assuming `self` has no
+    /// markers.
+    fn map_unmarked(
+        &self,
+        table: &[usize; ALPHABET_MAX_SIZE],
+        f: &impl Fn(&Letter) -> Letter,
+    ) -> Self {
+        let table = core::array::from_fn(|b| {
+            let letter = Letter {
+                char: b as u8,
+                marker: table[b],
+            };
+            f(&letter).marker
+        });
+        RegexInternal::Marked(Box::new(self.clone()), Box::new(table)).into()
     }
 }
 
@@ -732,6 +763,7 @@ impl Regex {
                     e.to_raw_automaton(alphabet_size).determinise(true, alphabet_size).complement()
                 }
             }
+            RegexInternal::Marked(e, table) => e.to_raw_automaton(alphabet_size).mark(table),
         }
     }
 
